@@ -455,6 +455,12 @@ func (st *State) binop(op token.Token, a, b Val, rt types.Type, pos token.Pos) V
 			return out(st.roundFloat(fmt.Sprintf("(* %s %s)", x, y)))
 		case token.QUO:
 			// float division by zero yields Inf/NaN: outside the real model
+			if c := e.contracts[e.curFn]; c != nil && c.Flags["floatinf"] == "havoc" {
+				// declared for functions where such a quotient only feeds log arguments: the result of a division by
+				// zero is an arbitrary value
+				e.assumeUsed("float division by zero yields an arbitrary value in " + e.curFn + " (flag floatinf havoc): the quotient only feeds log arguments")
+				return out(ite(eq(y, "0.0"), st.fresh("finf", SReal), st.roundFloat(fmt.Sprintf("(/ %s %s)", x, y))))
+			}
 			st.oblige("safety", "fdiv-zero", e.curProps, not(eq(y, "0.0")), pos)
 			return out(st.roundFloat(fmt.Sprintf("(/ %s %s)", x, y)))
 		case token.LSS:
